@@ -8,3 +8,4 @@ import Generated.GoObject
 import Generated.GoConfig
 import Generated.GoLink
 import Generated.GoCollection
+import Generated.GoSplicer
